@@ -1,5 +1,5 @@
 """C18 -- commands are spawned with exactly the configured program and arguments."""
-import json, os
+import json, os, re
 from vlib import *
 
 ARGS = ["", " ", "a b", "a  b", "'q'", "\"dq\"", "$HOME", "${X}", "*", "?.txt", "[a-z]", "a\nb", "\t", "é", "日本語", "𝄞",
@@ -149,6 +149,20 @@ class C18(Prop):
                 want = "[" + ",".join(hx(p) for p in x["prog"]) + "] exec"
                 if not impl.startswith(want):
                     c.failing.append({"case": x["argv"], "impl": o["obs"], "expected": want, "clause": "C18_cli_noshell_verbatim"})
+            if impl.startswith("["):
+                # the process placement follows --wrap-process alone
+                want_gs = {"none": "g=F s=F", "group": "g=T s=F", "session": "g=F s=T"}[x["wrap"]]
+                if not impl.endswith(want_gs):
+                    c.failing.append({"case": x["argv"], "impl": o["obs"], "expected": want_gs,
+                                      "clause": "C18_cli_wrap: --wrap-process does not decide the group / session placement of the command"})
+                # a shell description is split into words at any run of ASCII whitespace: program first, then its options
+                desc = x["shell_opt"] if not x["no_shell"] and x["shell_opt"] is not None else (x["shell_env"] if not x["no_shell"] and x["shell_opt"] is None else None)
+                if desc is not None and desc.strip(" \t\n\r\x0b\x0c") and desc.strip().lower() != "none" and " shell " in impl + " ":
+                    words = [w for w in re.split(r"[ \t\n\r\x0b\x0c]+", desc) if w]
+                    got = impl[1:impl.index("]")].split(",")
+                    if got[:len(words)] != [hx(w) for w in words] or (len(got) > len(words) and got[len(words)] == ""):
+                        c.failing.append({"case": x["argv"], "shell_env": x["shell_env"], "impl": o["obs"], "expected": words,
+                                          "clause": "C18_cli_shell_words: the shell description is not split into program and options at its whitespace"})
             if len(c.samples) < 4:
                 c.samples.append({"case": x["argv"], "impl": o["obs"], "model": m})
         return c
